@@ -526,18 +526,28 @@ class C06(Prop):
     search_n = 600
     design_ref = "5/C06"
     technique = ("Lean 4 proof (counter = number of holders invariant over all micro-instruction sequences, wrap-around "
-                 "and saturation arithmetic of the real widths) + translator-generated counter widths + "
+                 "and saturation arithmetic of the real widths; programs, inherit tables and object structures are cells of the same heap) + "
+                 "translator-generated counter widths, counter updates (INC/DEC_COUNTED_REF, free_svalue, assign_svalue_no_free, "
+                 "reference_prog, free_prog), in-place decisions of the string primitives and textual checks of the holder sites + "
                  "model/implementation correspondence on the real primitives and through the LPC interpreter + "
+                 "error injection at every instruction (hook H2) + "
                  "specification oracle (declarative exact-counting semantics) on every implementation trace")
     level_text = ("PARTIAL. Lean 4 theorems about an executable model of the reference-counting primitives "
                   "(assign_svalue, assign_svalue_no_free, free_svalue with recursive release, push/pop, allocation, "
-                  "mapping nodes, string counters with saturation, free_call / free_sentence / dealloc_funp, "
-                  "destruct_object / destruct2) for all sequences of primitives; tied to the source by the regenerated "
-                  "counter widths and by running the real functions (unit style) and the real interpreter (LPC style) "
-                  "and the model on the same generated histories with identical per-value counters and driver statistics")
+                  "mapping nodes, string counters with saturation and the in-place decisions that read them, free_call / free_sentence / "
+                  "dealloc_funp, destruct_object / destruct2, call_out() including callbacks that raise an error or destruct their "
+                  "object, input_to / get_char, program_t.ref with clone / inherit / blueprint references (reference_prog, free_prog, "
+                  "deallocate_program), replace_programs()) for all sequences of primitives: counter = number of holders, nothing "
+                  "freed while held, no dangling pointer anywhere, unreferenced values deallocated, statistics exact; tied to the "
+                  "source by the regenerated widths, counter updates and holder sites and by running the real functions (unit style) "
+                  "and the real interpreter (LPC style) and the model on the same generated histories with identical per-value "
+                  "counters and driver statistics")
     level_note = ("PARTIAL: the theorems cover the counting primitives and conventions; that each of the ~250 efuns and "
-                  "~120 opcode cases follows the convention on every path is only observed (per-value counters and "
-                  "statistics equal the model after every operation, counters back at the baseline, ASan), not proved. "
+                  "~120 opcode cases follows the convention on every path is only observed (72 efun/operator groups: per-value "
+                  "counters and statistics equal the model after every operation, also with an error injected at every "
+                  "instruction of 69 of them, counters back at the baseline, ASan), not proved.  The top statement "
+                  "`judge (model trace) = []` is not proved (the oracle is executed on the model's own traces and on 42 corrupted "
+                  "ones on every run instead).  "
                   "Trusted: Lean kernel; extract.py; the correspondence harness (differential, only the generated histories); "
                   "AddressSanitizer's poisoning as the 'has been freed' observation.")
     rule = ("cases = corpus + known-finding inputs + boundary list + seeded random histories (about 40 operations + "
@@ -547,7 +557,10 @@ class C06(Prop):
             "seen by every variable compared (strings are values), stack pushes and pops, call_outs whose callbacks keep their argument, add_action and input_to carry-over "
             "arguments, owners destructed while call_outs / sentences / an input_to are pending (dropped by the sweep, "
             "refused by the input), "
-            "destruct + deferred cleanup, errors thrown under live frames, 20 efun/operator groups with results dropped, "
+            "callbacks that raise an error or destruct their own object, clones / blueprint unloading / inherit references of "
+            "programs, replace_program() over four variable layouts, "
+            "destruct + deferred cleanup, errors thrown under live frames, 47 efun/operator groups with results dropped, an error "
+            "injected at the k-th instruction (or at every instruction in turn) of 69 efun groups and of restore_variable, "
             "25 'value builder aborted half-way' groups (callbacks of map/filter/sort/unique/implode raising after k calls, "
             "aggregates and call_other arguments with a failing element, sprintf/sscanf/regexp/allocate errors, built-in "
             "sort refusing its input) and restore_variable / restore_object on valid and damaged save texts (every "
@@ -556,13 +569,17 @@ class C06(Prop):
             "cyclic containers; a case is non-trivial when it has >= 2 executed operations; distinct = distinct "
             "canonical implementation trace")
     not_covered = ["that every efun (~250) and every opcode case (~120) follows the ownership convention on every path, "
-                   "including every error path, is observed on the generated programs only (20 efun/operator groups), not proved",
-                   "program_t.ref is modelled only as a counter beside the proved heap model (Drive.lean, ProgRef): its wrap is an "
-                   "open known finding; func_ref, inherit references and total_num_prog_blocks are not modelled",
-                   "one interactive user (create_test_interactive of the repository), input_to with flag 0 only; get_char "
-                   "shares the code path but is not called",
-                   "the fault-injection hook H2 of C05 is not used: error paths are errors raised by LPC code (nested frames, "
-                   "inside efun callbacks, under catch)",
+                   "including every error path, is observed on the generated programs only (72 efun/operator groups, 69 of them "
+                   "with an error injected at every instruction), not proved; never called: shadow, command / this_player hooks, ed, sockets",
+                   "the top statement judge (model trace) = [] (simulation between the counting machine and the declarative "
+                   "fixpoint machine of the oracle) is not proved; the oracle is exercised on the model's traces and on corrupted ones",
+                   "func_ref of programs is not modelled as a counter (only its width is an obligation); swapping, load_binary "
+                   "and total_num_prog_blocks are not modelled; replaceable() is not called",
+                   "one interactive user (create_test_interactive of the repository), input_to / get_char with flag 0 only; a "
+                   "callback that installs a new input_to is not generated",
+                   "error injection (hook H2) happens at instruction dispatch only: an error raised in the middle of an efun is "
+                   "covered only where LPC code can provoke it (the 25 'builder aborted half-way' groups); groups that build a cycle "
+                   "while they run are excluded from the injection",
                    "tot_alloc_sentence is a high-water mark (sentences are recycled through a free list) and is not compared",
                    "mapping hash order: the model releases the nodes of a mapping in insertion order"]
 
